@@ -434,6 +434,7 @@ class C08(Property):
     level_note = ("Lean kernel, axioms within {propext, Classical.choice, Quot.sound}; the entity-level round trip `load (save e) = e` "
                   "is not proved as a theorem (only its key-table obligation and the token part)")
     assumptions = ["entities are built through their constructors with JSON-compatible parameter values"]
+    quick_budget_s = 480          # real time (threads, database): generous under machine load
     min_nontrivial = 15
 
     def explore(self, ctx: Ctx) -> None:
